@@ -172,7 +172,7 @@ PROPS = {
     "C01": {
         "module": "ShapeVerif.Props.C01",
         "extra_modules": ["ShapeVerif.Props.TextLevel"],
-        "theorems": ["ShapeVerif.sources_sound", "ShapeVerif.one_more", "ShapeVerif.merger_never_evicts",
+        "theorems": ["ShapeVerif.sources_sound", "ShapeVerif.one_more", "ShapeVerif.many_more", "ShapeVerif.merger_never_evicts",
                      "ShapeVerif.infer_sound_C01", "ShapeVerif.d3_counterexample",
                      "ShapeVerif.merger_wf", "ShapeVerif.infer_wf", "ShapeVerif.sources_sound_text", "ShapeVerif.fromSources_reads"],
         "statements": {
